@@ -74,7 +74,7 @@ Print Assumptions C04_pool_nonneg.
    ask for something; tbl is the table of the batch strategies in use (one object per identifier) ---- *)
 Theorem C04_worker_invariant : forall tbl id v w, NoDup (map fst v) -> nonneg_vec v ->
   w_reach tbl (w_new id v) w -> WInv tbl w.
-Proof. intros tbl id v w Hv Hn Hr. eapply winv_reach; [apply winv_new; assumption|exact Hr]. Qed.
+Proof. intros tbl id v w Hv Hn Hr. exact (winv_reach tbl (w_new id v) w (winv_new tbl id v Hv Hn) Hr). Qed.
 Print Assumptions C04_worker_invariant.
 
 (* a resource is held exactly while its task / a member of its batch / its profile is resident *)
